@@ -77,26 +77,61 @@ def bias_text(rng, cv, kind, val):
     raise ValueError(kind)
 
 
-def gen_case(rng, idx, ctype, fit, bias, cell, combo=None):
+def gen_case(rng, idx, ctype, fit, bias, cell, combo=None, composite=False, opts=None):
+    """composite: a template of corpus.C01_EXTRA_COMPONENTS (the `fit` slot of the key then names the template variant);
+    opts: explicit template options (then `fit` is only the label used in the key)"""
     sysm = corpus.make_system(rng, natoms=26, cell=cell)
     pool = list(range(1, sysm["natoms"] - 1))  # the last two atoms are never used by any group
-    opts = {}
-    if fit != "none":
+    explicit = opts is not None
+    opts = dict(opts or {})
+    if fit != "none" and not explicit:
         opts["fit"] = fit
     extra = ["width %s" % fnum(rng.choice([0.5, 1.0, 2.0]))]
     if combo:
         cv = corpus.make_combo_colvar(rng, sysm, pool, "cv1", combo, extra)
+    elif composite:
+        coeff = exp = None
+        r = rng.random()
+        if r < 0.3:
+            coeff = round(rng.uniform(-3, 3), 3) or 2.0
+        if r < 0.15 and ctype != "linearCombination":   # linearCombination may be vector-valued
+            exp = rng.choice([2, 3])
+        cv = corpus.make_c01_colvar(rng, sysm, pool, "cv1", ctype, opts, extra, coeff=coeff, exp=exp)
+        fit = cv.get("variant") or "none"
+        if callable(bias):
+            bias = bias(cv["vtype"])
     else:
         coeff = exp = None
         r = rng.random()
         # a coefficient on a unit-vector or quaternion component gives a value off its manifold
-        # (not a meaningful variable): coefficients only for scalar and plain vector components
-        if r < 0.3 and ctype not in ("distanceDir", "orientation"):
+        # (not a meaningful variable): coefficients only for scalar and plain vector components; none on a periodic
+        # distanceZ (the variable would no longer have the period of its component)
+        if r < 0.3 and ctype not in ("distanceDir", "orientation") and not opts.get("period"):
             coeff = round(rng.uniform(-3, 3), 3) or 2.0
         cv = corpus.make_colvar(rng, sysm, pool, "cv1", ctype, opts, extra, coeff=coeff,
-                                exp=(rng.choice([2, 3]) if (r < 0.15 and ctype not in ("distanceVec", "distanceDir", "orientation", "distancePairs", "cartesian")) else None))
+                                exp=(rng.choice([2, 3]) if (r < 0.15 and not opts.get("period") and ctype not in ("distanceVec", "distanceDir", "orientation", "distancePairs", "cartesian")) else None))
     return dict(idx=idx, sysm=sysm, cv=cv, bias=bias, ctype=cv["ctype"], fit=fit, cell=cell,
                 pos2=jitter(rng, sysm["pos"], 0.25))
+
+
+def scenario_pass0(case):
+    """preliminary run of a composite component: its sub-components as separate variables at the base geometry"""
+    s = corpus.scenario_header(case["sysm"])
+    s += "module\nconfig <<EOC\n" + case["cv"]["prep"]["text"] + "\nEOC\ninit\n"
+    s += corpus.pos_line(case["sysm"]["pos"]) + "\nstep\n"
+    return s
+
+
+def write_files(case, wd):
+    """reference frames, path file, network parameters ... next to the scenario; returns their paths"""
+    os.makedirs(wd, exist_ok=True)
+    out = []
+    for fn, content in (case["cv"].get("files") or {}).items():
+        fp = os.path.join(wd, fn)
+        with open(fp, "w") as fh:
+            fh.write(content)
+        out.append(fp)
+    return out
 
 
 def scenario_pass1(case):
@@ -208,9 +243,27 @@ def check_sweep(c, case, ev, files):
         g = (4.0 * gh2 - gh) / 3.0
         spread = abs(gh2 - gh)
         rnd = 400.0 * 2.2e-16 * max(abs(e0), abs(ep), abs(em), 1.0) / H
-        if spread > 1e-4 * fscale + 50 * rnd:
+        # even part of the same five samples: the second differences at h and h/2 must agree as well.  An energy that the
+        # stencil cannot resolve (e.g. hills far narrower than the change of a cubed angle over h: E(x +- h) = 0 exactly on
+        # both sides of a base point with E > 0) passes the odd-part test with gh = gh2 = 0 although it is not smooth on
+        # the scale of h; such a coordinate is inconclusive, like any other non-smooth point
+        c2h = (ep + em - 2.0 * e0) / (H * H)
+        c2h2 = (ep2 + em2 - 2.0 * e0) / (0.25 * H * H)
+        spread2 = abs(c2h - c2h2) * H
+        # one-sided potentials (walls, the ABMD ratchet, truncated hills) are exactly zero beyond their boundary, where the
+        # second derivative jumps: samples that are exactly zero next to samples that are not mean that the boundary lies
+        # inside the stencil.  (Seen with ABMD on 1.65 psi^3: a displacement of h moved the variable by 4 times its
+        # distance to the ratchet reference on one coordinate, flagged by the Richardson pair, and by 1.02 times on
+        # another, where the pair differed by 7e-5 only but the extrapolation was off by 0.3 of that.)
+        # (The zero region of such a potential is an interval reaching at least one end of the stencil; a linear bias
+        # centred on the current value is zero at the base point only and is not concerned.)
+        es = (e0, ep, em, ep2, em2)
+        straddle = (ep == 0.0 or em == 0.0) and any(x != 0.0 for x in es)
+        if spread > 1e-4 * fscale + 50 * rnd or spread2 > 1e-4 * fscale + 50 * rnd or straddle:
             n_inc += 1
             c.bump("coords_nonsmooth")
+            if spread <= 1e-4 * fscale + 50 * rnd:
+                c.bump("coords_nonsmooth_even_part_only" if not straddle else "coords_nonsmooth_zero_boundary_only")
             continue
         # 1e-6 of the force scale: the optimal-rotation derivatives come from an iterative (Jacobi)
         # diagonalisation converged to about 1e-8 relative; semantic errors are >= 1e-3
@@ -282,6 +335,29 @@ def plan(c, tier):
                 for b in bl:
                     cases.append(gen_case(rng, idx, ctype, fit, b, cell=(rng.random() < 0.4)))
                     idx += 1
+        # composite components (templates outside corpus.COMPONENTS): protein variables on named atoms, path variables in
+        # Cartesian and in CV space, linearCombination, neuralNetwork
+        for ctype in corpus.C01_EXTRA_COMPONENTS:
+            nb = 2 if tier == "quick" else len(BIASES_SCALAR)
+            for j in range(nb):
+                def pick(vt, j=j):
+                    bl = BIASES_SCALAR if vt == "scalar" else BIASES_NONSCALAR[vt]
+                    return rng.choice(bl) if tier == "quick" else bl[j % len(bl)]
+                vl = corpus.C01_EXTRA_VARIANTS.get(ctype)
+                o = {"variant": vl[(rep * nb + j + rep) % len(vl)]} if vl else {}
+                cases.append(gen_case(rng, idx, ctype, "none", pick, cell=(rng.random() < 0.4), composite=True, opts=o))
+                idx += 1
+        # distanceZ with a period shorter than the unwrapped projection (the reported value is wrapped by one or more
+        # periods), fixed axis and ref2; linear restraints are refused on periodic variables, walls need both sides
+        for ax in ("axis", "ref2"):
+            bl = ["harmonic", "walls_both", "meta"]
+            for b in (bl if tier == "thorough" else rng.sample(bl, 2)):
+                per = rng.choice([1.0, 1.5, 2.0, 3.0])
+                o = {"axis": ax, "period": per}
+                if rng.random() < 0.5:
+                    o["wrap"] = round(rng.uniform(-per, per), 3)
+                cases.append(gen_case(rng, idx, "distanceZ", "periodic_" + ax, b, cell=(rng.random() < 0.4), opts=o))
+                idx += 1
         # polynomial / linear combinations of scalar components
         scal = ["distance", "angle", "dihedral", "gyration", "coordNum", "distanceZ", "rmsd", "inertia", "hBond"]
         for _ in range(6):
@@ -294,18 +370,44 @@ def plan(c, tier):
 def run(tier, replay):
     c = common.Check("C01", tier)
     c.use_flavour("plain")
-    c.rule = ("cases = (component type x atom-group fit option x bias type x cell on/off x coeff/exp); every coordinate "
+    c.rule = ("cases = (component type x atom-group fit option or template variant x bias type x cell on/off x coeff/exp); every coordinate "
               "of every engine atom swept by central differences at h and h/2 through the real calc(); a case is "
               "non-trivial/distinct by its (component, fit option, bias) triple having >=1 conclusive coordinate with "
               "non-zero force")
     c.assumptions = ["finite differences with Richardson error bar; coordinates where the two step sizes disagree by "
-                     ">1e-4 of the force scale are inconclusive (non-smooth point), not violations",
+                     ">1e-4 of the force scale are inconclusive (non-smooth point), not violations; so are coordinates whose "
+                     "second differences at the two step sizes disagree by as much, or whose stencil reaches the exactly-zero "
+                     "side of a one-sided potential (both tests use the energy samples only)",
+                     "composite components (path variables, linearCombination, neuralNetwork) are laid out around the current "
+                     "point from the values of their sub-components in a preliminary run; CV-space dimensions are given "
+                     "comparable scales",
                      "sweep evaluations are repeats of one step with the continuing flag set, so accumulating biases do not change"]
     common.vbuild.ensure("plain", tools=["esim"])
     cases = plan(c, tier)
 
+    def wd(case):
+        return os.path.join(c.work, "c%d" % case["idx"])
+
+    # composite components whose files depend on the current values of their sub-components: preliminary run
+    def p0(case):
+        return common.run_esim("plain", scenario_pass0(case), wd(case), "p0")
+
+    prep = [case for case in cases if case["cv"].get("prep")]
+    dropped = set()
+    for case, (r, ev, sp) in zip(prep, common.pmap(p0, prep)):
+        st = [e for e in ev if e.get("ev") == "step"]
+        cfg = [e for e in ev if e.get("ev") == "config"]
+        if not r["complete"] or not st or (cfg and cfg[0]["rc"] != 0) or st[0]["err"]:
+            c.inconc("pass0 failed for %s/%s: %s" % (case["ctype"], case["fit"], (cfg[0]["errs"] if cfg else r["err"])[:3]))
+            c.note_set("templates_rejected", "%s/%s" % (case["ctype"], case["fit"]))
+            dropped.add(case["idx"])
+            continue
+        case["cv"]["prep"]["finalize"]({k: [fl(x) for x in v["x"]] for k, v in st[0]["cv"].items()})
+    cases = [case for case in cases if case["idx"] not in dropped]
+
     def p1(case):
-        r, ev, sp = common.run_esim("plain", scenario_pass1(case), os.path.join(c.work, "c%d" % case["idx"]), "p1")
+        case["_files"] = write_files(case, wd(case))
+        r, ev, sp = common.run_esim("plain", scenario_pass1(case), wd(case), "p1")
         return r, ev, sp
 
     res1 = common.pmap(p1, cases)
@@ -336,16 +438,27 @@ def run(tier, replay):
             if cfg and cfg[0]["rc"] != 0:
                 c.inconc("bias config rejected %s/%s: %s" % (case["ctype"], case["bias"], str(cfg[0]["errs"])[:200]))
                 c.note_set("templates_rejected", "%s/%s" % (case["ctype"], case["bias"]))
+            elif r["sig"] and not r["timeout"]:
+                # the process died while evaluating or applying forces: the engine never received them
+                c.violation("crash_in_force_evaluation:%s:%s:%s" % (case["ctype"], case["fit"], case["bias"]),
+                            "esim terminated by signal %s during the biased run: %s" % (r["sig"], r["err"][-300:]),
+                            [sp] + case.get("_files", []), payload={"bias": case.get("bias_text"), "cv": case["cv"]["text"]})
             else:
                 c.inconc("run failed %s/%s/%s sig=%s: %s" % (case["ctype"], case["fit"], case["bias"], r["sig"], r["err"][-300:]))
             continue
         case["_errs"] = [e.get("errs") for e in ev if e.get("errs")]
         st = [e for e in ev if e.get("ev") == "savestr"]
         case["_state"] = st[0].get("state", "") if st else ""
-        n_ok, n_inc = check_sweep(c, case, sw[0], [sp])
+        n_ok, n_inc = check_sweep(c, case, sw[0], [sp] + case.get("_files", []))
         conclusive_coords += n_ok
         c.bump("coordinates_conclusive", n_ok)
         nz = any(fl(x) != 0.0 for f in sw[0]["f0"] for x in f)
+        if case["ctype"] in corpus.C01_EXTRA_COMPONENTS or case["fit"].startswith("periodic_"):
+            lab = case["ctype"] if not case["fit"].startswith("periodic_") else case["ctype"] + ":" + case["fit"]
+            pc = c.extra.setdefault("new_template_coords", {}).setdefault(lab, {"cases": 0, "conclusive": 0, "nonsmooth": 0})
+            pc["cases"] += 1
+            pc["conclusive"] += n_ok
+            pc["nonsmooth"] += n_inc
         if n_ok and nz:
             c.nontrivial("%s|%s|%s" % (case["ctype"], case["fit"], case["bias"]))
             c.note_set("component_types_covered", case["ctype"])
